@@ -175,6 +175,15 @@ macro_rules! base_field_impl {
                 out
             }
 
+            /// (ALU rows, witness slots) of the circuit `x = public; decompose_to_bits(x, n)`.
+            pub fn cost(n: usize) -> (usize, u32) {
+                let mut b = CircuitBuilder::<F>::new();
+                let xe = b.public_input();
+                b.decompose_to_bits::<F>(xe, n).expect("decompose");
+                let c = b.build().expect("build");
+                (c.ops.iter().filter(|o| matches!(o, Op::Alu { .. })).count(), c.witness_count)
+            }
+
             /// Value of the real `reconstruct_index_from_bits` chain on arbitrary slot contents.
             pub fn recon_case(vals: &[u64]) -> Option<u64> {
                 let mut b = CircuitBuilder::<F>::new();
@@ -967,7 +976,12 @@ pub fn main(args: &crate::Args) {
     }
     s.cases.flush().unwrap();
     s.implo.flush().unwrap();
-    let report = json!({"evaluations": s.evaluations, "distinct": s.distinct.len(), "distinct_nontrivial": s.nontrivial.len(),
+    let cost = json!({
+        "bb": {"n31": bb1::cost(31), "n30": bb1::cost(30)},
+        "kb": {"n31": kb1::cost(31), "n30": kb1::cost(30)},
+        "gl": {"n64": gl1::cost(64), "n63": gl1::cost(63)},
+    });
+    let report = json!({"gadget_cost_alu_rows_and_slots": cost, "evaluations": s.evaluations, "distinct": s.distinct.len(), "distinct_nontrivial": s.nontrivial.len(),
         "proofs": s.proofs, "hist": s.hist, "samples": s.samples, "violations": s.violations, "seed": seed});
     std::fs::write(format!("{out}/decomp.report.json"), serde_json::to_string_pretty(&report).unwrap()).unwrap();
     println!("decomp: evaluations={} proofs={} violations={}", s.evaluations, s.proofs, s.violations.len());
